@@ -33,6 +33,8 @@ HARNESSES = [
     A("c13_2_diff", "two files, symbolic gap", "thorough", 3000), A("c13_2_file_anon", "file + anonymous, symbolic gap", "thorough", 3000),
     A("c13_2_file_anon_gate", "file + anonymous with a symbolic gate address", "thorough", 3000),
     A("c13_3_fold_adjacent", "file, anonymous, file: adjacent (fold rule)", "thorough", 3000, expect_unsat_covers=NN),
+    A("c13_3_fold_hole_before_page", "file, HOLE, anonymous page, same file: no fold across the hole", "thorough", 3000),
+    A("c13_3_fold_hole_after_page", "file, anonymous page, HOLE, same file: no fold", "thorough", 3000),
     A("c13_3_fold", "file, anonymous, file: symbolic gaps", "thorough", 3600),
     A("c13_3_fold_other", "file, anonymous, other file", "thorough", 3600),
     A("c13_2_heap_heap", "two [heap] lines, symbolic gap: same-name merge iff contiguous (~500 s)", "thorough"),
